@@ -1597,6 +1597,8 @@ def run(ctx, replay=None):
     rz_terms, rz_meta = [t for t, _ in RESUME_TERMS], [m for _, m in RESUME_TERMS]
     del RESUME_TERMS[:]
     ctx.h("resume_suggestions_compared_with_model", len(rz_terms) // 10 * 10)
+    ctx.h("get_batch_configs_compared_with_model", "%d (with model-based part: %d)" % (
+        len(mbt_terms), sum(1 for t in mbt_terms if "[([" in t.split("%nat,")[-1])))
     for tag, fn, terms, meta, shard in (("resume", "chk_resume", rz_terms, rz_meta, 60), ("rs", "chk_rs", rs_terms, rs_meta, 40), ("gs", "chk_gs", gs_terms, gs_meta, 40),
                                         ("prod", "chk_prod", prod_terms, prod_meta, 60),
                                         ("mb", "chk_mb", mb_terms, mb_meta, 10), ("batch", "chk_batch", bt_terms, bt_meta, 20), ("mbatch", "chk_mbatch", mbt_terms, mbt_meta, 12),
